@@ -321,6 +321,9 @@ func (g *goGen) valueFromModel(model map[string]string, base string, t types.Typ
 
 func tryReplay(e *Engine, prop string, o *Obligation, model string, rep map[string]interface{}) {
 	rep["replay"] = "not attempted"
+	if scenarioReplay(e, o, rep) {
+		return
+	}
 	if model == "" {
 		rep["replay"] = "no model from the solver"
 		return
@@ -456,4 +459,65 @@ func runOverlayTest(repo string, fn *ssa.Function, src string) (string, bool, er
 		return s, false, err
 	}
 	return s, false, nil
+}
+
+type scenarioIndex struct {
+	Scenarios []struct {
+		Obligation string `json:"obligation"`
+		File       string `json:"file"`
+		Pkg        string `json:"pkg"`
+	} `json:"scenarios"`
+}
+
+// scenarioReplay: history/typestate obligations are replayed by a scenario test
+// written for that obligation family; it runs against the tree being checked.
+func scenarioReplay(e *Engine, o *Obligation, rep map[string]interface{}) bool {
+	data, err := os.ReadFile("/verif/replay/scenarios/index.json")
+	if err != nil {
+		return false
+	}
+	var idx scenarioIndex
+	if json.Unmarshal(data, &idx) != nil {
+		return false
+	}
+	for _, s := range idx.Scenarios {
+		re, err := regexp.Compile(s.Obligation)
+		if err != nil || !re.MatchString(o.Name) {
+			continue
+		}
+		src := filepath.Join("/verif/replay/scenarios", s.File)
+		dir, err := os.MkdirTemp("/var/tmp", "govc-scenario-")
+		if err != nil {
+			return false
+		}
+		defer os.RemoveAll(dir)
+		rel := s.Pkg
+		if rel == "" {
+			rel = "."
+		}
+		target := filepath.Join(e.repo, rel, "zz_govc_scenario_test.go")
+		ov, _ := json.Marshal(map[string]interface{}{"Replace": map[string]string{target: src}})
+		ovPath := filepath.Join(dir, "overlay.json")
+		os.WriteFile(ovPath, ov, 0o644)
+		ctx, cancel := context.WithTimeout(context.Background(), 180*time.Second)
+		defer cancel()
+		cmd := exec.CommandContext(ctx, "go", "test", "-overlay", ovPath, "-vet=off", "-count=1", "-timeout", "120s", "-run", "^TestGovcScenario", "./"+rel)
+		cmd.Dir = e.repo
+		cmd.Env = append(os.Environ(), "GOFLAGS=-mod=mod", "GOPROXY=off", "GOSUMDB=off", "GOTOOLCHAIN=local")
+		out, _ := cmd.CombinedOutput()
+		so := string(out)
+		if len(so) > 4000 {
+			so = so[:4000]
+		}
+		rep["replay_scenario"] = s.File
+		rep["replay_output"] = so
+		if strings.Contains(so, "GOVC-VIOLATED") {
+			o.replayed = true
+			rep["replay"] = "scenario confirmed the violation on the real code"
+		} else {
+			rep["replay"] = "scenario did not reproduce a violation on the real code"
+		}
+		return true
+	}
+	return false
 }
